@@ -128,7 +128,7 @@ PROPS = {
              "proto/full ABI/partial ABI, feeds prices fixed-point/tick ABI, tunnel packet, transition, text) run through the real handlers, plus a "
              "second request differing in exactly one field; non-trivial = oracle payload with non-empty result or feeds/tunnel payload with >=2 "
              "prices. Tick: prices at floor/ceil of every sampled tick boundary +-1, fixed values and log-uniform values; non-trivial = p within one "
-             "price unit of a boundary. Thorough adds EVERY tick of the supported range with the four boundary prices. Chain: TSS history engine with user and governance-executed (sender = module authority) MsgRequestSignature over internal content kinds; non-trivial = >=2 signed messages parsed back and an oracle result or an internal-kind attempt. Tunnel: the C08 tunnel histories (TSS-route tunnels with fixed-point and tick encoders, delisted / not-ready signals, deviation and interval packets); the signed bytes of every TSS packet are decoded with the reference decoders and compared with the stored packet (originator, time, sequence, every price entry); non-trivial = a decoded packet carrying a non-AVAILABLE price entry; distinct = hash of case JSON",
+             "price unit of a boundary. Thorough adds EVERY tick of the supported range with the four boundary prices. Chain: TSS history engine with user and governance-executed (sender = module authority) MsgRequestSignature over internal content kinds; non-trivial = >=2 signed messages parsed back and an oracle result or an internal-kind attempt. Tunnel: the C08 tunnel histories (TSS-route tunnels with fixed-point and tick encoders, delisted / not-ready signals, deviation and interval packets); an optional second ACTIVE group with a governance-forced transition so that packets inside the WAITING_EXECUTION window are signed by the current AND the incoming group; the signed bytes of every TSS packet signing (both groups) are decoded with the reference decoders and compared with the stored packet (originator, time, own signing id, sequence, every price entry, tick values against the 384-bit reference, identical content for both groups); non-trivial = a decoded packet carrying a non-AVAILABLE price entry; distinct = hash of case JSON",
         explanation="reference layout written from the statement (keccak(originator)|u64 time|u64 id|content, tags = keccak(name)[:4], hand-written ABI and "
                     "proto encoders), round trip through go-ethereum abi / proto decoders with independently declared types, injectivity under single-"
                     "field change, pairwise distinct tags, internal kinds flagged; tick T must satisfy price(T) <= p < price(T+1) against a 384-bit "
@@ -287,7 +287,7 @@ PROPS = {
         stages=[dict(test="TestC19", pkg="c19", quick=(16, 30), thorough=(16, 1500), timeout=dict(quick=900, thorough=3300),
                      crash_is_violation=True)],
         rule="case = sim chain with 1-4 validators and 1-4 data sources whose executables are 1..4096 bytes (incl. < 32), 1-3 transactions of 1-3 requests with 1-6 raw requests (repeated sources), 1-3 ROUNDS handled by the same daemon Context and file cache with owner/foreign MsgEditDataSource transactions between rounds and between a request and its handling (new bytes, same bytes, [do-not-modify], fee/treasury only), later rounds asking edited sources again, selection of the validator decided by the chain, RPC stub with injected "
-             "transient/permanent failures, executor stub with drawn outcome/delay per raw request, cache hit/miss, oracle MaxReportDataSize 16/64/512 with executor outputs at max-1/max/max+1 (cut to the limit as the docker executor does, or not cut as the REST executor), every queued report DELIVERED to the chain in a real block, entry via handleRequest or handleTransaction, order/GOMAXPROCS perturbation; non-trivial = a processed request selecting the validator with >=2 raw requests "
+             "transient/permanent failures, executor stub with drawn outcome/delay per raw request or (30%) the REAL REST executor of yoda/executor against an in-process HTTP endpoint (200 with stdout/stderr, non-2XX pages of 0..2000 bytes, truncated JSON, closed connection, hang until the client times out), restart rounds where other validators report first and a fresh daemon learns open requests through the start-up PendingRequests query, cache hit/miss, oracle MaxReportDataSize 16/64/512 with executor outputs at max-1/max/max+1 (cut to the limit as the docker executor does, or not cut as the REST executor), every queued report DELIVERED to the chain in a real block, entry via handleRequest or handleTransaction, order/GOMAXPROCS perturbation; non-trivial = a processed request selecting the validator with >=2 raw requests "
              "AND >=1 injected failure actually served; distinct = hash of case JSON",
         explanation="after quiescence: exactly one MsgReportData per request selecting the validator (none otherwise), one raw report per external "
                     "id, exit code/output == stubbed outcome or 255 on load/executor failure, ValidateBasic and the chain's CheckValidReport accept it, the executable handed to the executor is the data source's executable at request time or at handling time (never an older one); each case is journalled before execution so a daemon panic (process death) yields the crashing case as replay",
@@ -300,7 +300,7 @@ PROPS = {
                 dict(test="TestC20Submit", pkg="c20", quick=(8, 250), thorough=(16, 12500), timeout=dict(quick=600, thorough=3300))],
         rule="Loop: closed loop in virtual time (200-600 s, 1 s polling with drawn phase) between the real signaller step and the real feeds module on a "
              "sim chain: price-service streams with status flips and moves at old*(1+-dev)+{-1,0,1}, feed-list changes by votes, feeds parameter changes through real governance proposals in the middle of the run (CooldownTime up/down, GracePeriod, MaxInterval, deviation bounds, PriceQuorum) followed by bursts of moves and status flips, drawn block-time "
-             "offsets in [-3 s,+0.9 s], lost/failed submissions; non-trivial = >=1 status-change, >=1 deviation-triggered and >=1 slot-triggered "
+             "offsets in [-3 s,+0.9 s], lost/failed/delayed (3-4 ticks in flight) submissions, current-feeds recalculations that change a listed feed's power/interval/deviation while its batch is in flight, non-round deviation thresholds with moves of exactly the threshold; non-trivial = >=1 status-change, >=1 deviation-triggered and >=1 slot-triggered "
              "submission. Submit: submitPrice against RPC stubs with 10 drawn failure kinds; non-trivial = >=1 injected failure; distinct = hash of case JSON",
         explanation="(1) every landed submission is accepted by the real MsgSubmitSignalPrices handler under the chain's CURRENT params (a submission decided before a parameter change became visible to the daemon's once-per-tick poll is excused and counted); (2) the validator is never deactivated for a signal "
                     "the price service kept serving; (3) integer reference predicate (status change or deviation >= threshold, past cooldown+buffer, not "
